@@ -137,3 +137,15 @@ PROPS["C06"] = {
     "level_text": "Every state reachable under the length horizon and every transition out of it is executed on the real Seq and compared with the list model (length, every symbol, display, iteration, equality and hash stream against a fresh sequence; source value, earlier slice copy and argument unchanged). Fixpoint (empty frontier) is reported per run; histories crossing word boundaries are covered to depth 2-3 from every word-boundary length.",
     "level_note": "Histories deeper than the stated depth from boundary seeds, sequences longer than 3 words and capacity effects are outside the bound.",
 }
+
+PROPS["C04"] = {
+    "parts": [{"kind": "bin", "bin": "c04"}],
+    "rule": "E2 over k-mer types and producers: for every (codec, storage, K) in the tier's K set every content (all |alphabet|^K <= bound, else the P(K) family) through Kmer::try_from(&slice).bs at slice offsets, usize::try_from(&slice), u8::from(&slice), usize::from(Seq) fresh and offset-copied, usize::from(&Kmer), Kmer::from(int)/from(usize) and display; refusal of slices of fit+1, fit+2, 2fit, 2fit+1 symbols at every offset; for every word-boundary length every producer of an owned sequence (bsv/src/producers.rs, ~60 producers incl. edit histories) -> into_raw layout and from_raw for every count 0..=capacity+2; the README table literally",
+    "bound": {"quick": "K in the reduced set {1,2,3,4,mid,fit-1,fit} per (codec, storage); all contents when |alphabet|^K <= 65536; lengths WB(2 words)+{4,5,7}; 4 copy offsets",
+              "thorough": "every K that fits (634 k-mer types); all contents when |alphabet|^K <= 2^20; WB(3 words); every copy offset; 2 patterns"},
+    "assumptions": COMMON_ASSUME + [SEP, "integer conversion is exercised on non-empty values only (the property says non-empty)", "bits of the word image beyond the sequence length are unspecified and not compared",
+        "symbol codes are the codec's own to_bits() (C05 decides the tables)"],
+    "technique": "bounded-exhaustive enumeration of contents x k-mer types x bit offsets and of producers x lengths x symbol counts on the real conversion code against integer packing (sum code_i * 2^(i*BITS))",
+    "level_text": "Every k-mer type in the K set, with all contents where the content space is small and every-symbol-at-every-position families otherwise, is converted to and from integers by the real code at every slice offset and compared with the packing formula; every producer of an owned sequence is checked for the bit-0 word image and from_raw is called with every symbol count, at every word-boundary length.",
+    "level_note": "Full 64/128-bit content spaces are covered by pattern families only; producers are a finite hand-listed set (plus C06's explorer for edit semantics).",
+}
